@@ -83,6 +83,20 @@ func c13Base(algo string, mule bool, n int, variant int) *nHist {
 		b4u := &h.bundles[3]
 		b4u.dst = nEid{60, 0}
 		h.cand = append(h.cand, [2]nEid{nEid{2, 0}, nEid{60, 0}})
+		// relayed link-state broadcasts: the broadcast bundles carry a DTLSRBlock with data of their origin, and a
+		// fifth bundle of the same origin (another creation time) carries data that is OLDER than (variant 0, 1)
+		// or as old as (variant 2) or newer than (variant 3) that of bundles 1/2 — whatever the data says, the
+		// previous node of a broadcast bundle has to be remembered
+		ls1 := nAbsNow - 5000
+		h.bundles[0].lsTime, h.bundles[1].lsTime = nI64(ls1), nI64(ls1)
+		b5 := nFresh(5, src, far)
+		b5.ts = h.bundles[0].ts + 1
+		b5.prev = nP(nEid{2, 0})
+		if n >= 2 && variant%2 == 1 {
+			b5.prev = nP(nEid{3, 0})
+		}
+		b5.lsTime = nI64(ls1 + []int64{-1000, -1, 0, 1000}[variant%4])
+		h.bundles = append(h.bundles, b5)
 	}
 	return h
 }
